@@ -16,11 +16,15 @@ TABLES = [
     [("", 0), ("", 1), ("a", 1)],
     [("a=a", 0), ("a", 1), ("a", 0), ("aaa", 1), ("a a", 1)],
     [],
+    [("a", "T"), ("a", "V"), ("aa", "V"), ("", "F"), ("a", 1)],
 ]
-BIG_TABLE = [("foo", 0), ("bar", 1), ("baz", 1), ("init.exec", 1), ("quiet", 0), ("path1", 1), ("fo", 0), ("", 1), ("bar", 0)]
+BIG_TABLE = [("foo", 0), ("bar", 1), ("baz", 1), ("init.exec", 1), ("quiet", 0), ("path1", 1), ("fo", 0), ("", 1), ("bar", 0),
+             ("foo", "T"), ("quiet", "F"), ("baz", "V"), ("n", "i32"), ("m", "u8"), ("k", "i64"), ("j", "u16"), ("bar", "V")]
 
 def table_lines(tbl):
-    return ["opt %s %d" % (hs(n), h) for n, h in tbl]
+    """entries: (name, 0|1) = custom recording callback without/with argument; (name, kind) with kind in
+    T F V i32 u8 u16 i64 = the real helper of cmdline.hpp (store_true/false, as_string_view, as_number<T>)"""
+    return [("opt %s %d" % (hs(n), h)) if isinstance(h, int) else ("ropt %s %s" % (hs(n), h)) for n, h in tbl]
 
 def corpus():
     cs = []
@@ -31,6 +35,9 @@ def corpus():
     cs.append(("corpus-quoted-last", table_lines([("", 0), ("a", 0)]) + ["parse " + hs('"a"')]))
     cs.append(("corpus-test-basic", table_lines([("foo", 0), ("bar", 0), ("baz", 1), ("path1", 1), ("path2", 1)]) +
                ["parse " + hs('foo baz=quux "path1=/foo bar/baz" path2="/baz bar/foo" bar')]))
+    cs.append(("corpus-helpers", table_lines([("foo", "T"), ("bar", "V"), ("baz", 1), ("n", "i32"), ("m", "u8"), ("q", "F")]) +
+               ["parse " + hs('foo bar=x "baz=a b" n=123 m=300 n=99999999999999 bar')]))
+    cs.append(("corpus-helper-i64-max", table_lines([("n", "i64")]) + ["parse " + hs('n=9223372036854775807')]))
     cs.append(("corpus-null-cmdline", table_lines([("", 0), ("a", 1)]) + ["parsenull"]))
     cs.append(("corpus-empty-cmdline", table_lines([("", 0), ("a", 1)]) + ["parse -"]))
     return cs
@@ -57,7 +64,7 @@ def grammar(rng, i):
     tbl = list(BIG_TABLE)
     rng.shuffle(tbl)
     tbl = tbl[:rng.randrange(1, len(tbl) + 1)]
-    names = [n for n, _ in BIG_TABLE] + ["x", "nosuch"]
+    names = [n for n, _ in BIG_TABLE] + ["x", "nosuch", "n", "m", "k", "j"]
     toks = []
     for _ in range(rng.randrange(0, 9)):
         n = rng.choice(names)
@@ -65,7 +72,8 @@ def grammar(rng, i):
         if k < 0.3:
             t = n
         elif k < 0.6:
-            t = n + "=" + rng.choice(["", "1", "quux", "/a/b", "a=b", "12345678901234567890"])
+            t = n + "=" + rng.choice(["", "1", "quux", "/a/b", "a=b", "12345678901234567890", "255", "256", "2147483647", "2147483648",
+                                      "65535", "65536", "9223372036854775807", "9223372036854775808", "007", "12x", str(rng.randrange(0, 70000))])
         elif k < 0.8:
             t = '"' + n + "=" + rng.choice(["a b", " ", "", "x  y z", "a=b c"]) + '"'
         else:
